@@ -399,9 +399,10 @@ pub fn screen_idx(idx: &mut Vec<usize>, whole: &Result<Vec<[f32; 3]>, &'static s
 }
 
 /// frames of more than 2^20 pixels in the shapes that size-triggered code paths (tables, threads, vector loops) meet in
-/// practice: full HD, one single row, one single column, a 2^21+ rectangle
+/// practice: full HD, one single row, one single column, a 2^21+ rectangle with odd sides, UHD (8.3 Mpx)
+pub const NHUGE: usize = 5;
 pub fn huge(k: usize) -> (usize, usize) {
-    [(1920, 1080), (1_048_579, 1), (1, 1_048_581), (2049, 1025)][k % 4]
+    [(1920, 1080), (1_048_579, 1), (1, 1_048_581), (2049, 1025), (3840, 2160)][k % NHUGE]
 }
 pub fn big(k: usize) -> (usize, usize) {
     [(521, 509), (311, 227), (513, 513), (1031, 257)][k % 4]
